@@ -326,6 +326,30 @@ func runC12(p *an.Prog, r *an.Run, tier string) {
 		r.Check(len(why) == 0, "limit-agree", driverKind(d), m.Pos(), "limit > 0 caps the result, limit 0 means unlimited", "%s", strings.Join(why, "; "))
 	}
 
+	// ---- stats-window: the aggregate statistics count a node as active by the same window as the host query and the
+	// expiry rule (ExpireInterval): every duration that the shared counting helper subtracts from the clock is that
+	// constant (with the keep-alive interval instead, Stats disagrees with ActiveHosts about a node that missed one
+	// keep-alive)
+	if cn := p.Method("pool/store", "Stats", "CountNode"); cn != nil {
+		exp, okE := p.PkgConstInt("pool/store", "ExpireInterval")
+		var sb []string
+		nAdd := 0
+		for _, c := range an.Calls(cn, false) {
+			if an.IsMethod(an.CallObj(c), "time", "Time", "Add") && len(c.Common().Args) == 2 {
+				nAdd++
+				if k, ok := an.ConstInt(c.Common().Args[1]); !ok || !okE || k != -exp {
+					sb = append(sb, "Stats.CountNode measures activity with a window other than store.ExpireInterval ("+p.Pos(c.Pos())+")")
+				}
+			}
+		}
+		if nAdd == 0 {
+			sb = append(sb, "Stats.CountNode does not compare LastSeen with now - ExpireInterval")
+		}
+		r.Check(len(sb) == 0, "stats-window", "store.Stats.CountNode", cn.Pos(), "active <=> LastSeen after now - ExpireInterval", "%s", strings.Join(sb, "; "))
+	} else {
+		r.Undec("stats-window", "store.Stats.CountNode", token.NoPos, "anchor not found")
+	}
+
 	// ---- authorise: IsAccountNode answers nil exactly for a node that is linked AND linked to the given account: the
 	// successful return is reachable neither around the "link found" edge nor around the "stored account == argument"
 	// edge (a `&&` for the `||` of the refusal authorises every linked node for every account)
